@@ -83,9 +83,9 @@ class MonteCarloSettings:
 
     def use_mode_with_confidence(self, confidence=None):
         """Use the mode of the distribution with a confidence coverage for this value"""
-        self.__settings[lit.MONTE_CARLO_STRATEGY] = lit.MC_MODE_AND_CONFIDENCE
         if confidence:
             self.confidence = confidence
+        self.__settings[lit.MONTE_CARLO_STRATEGY] = lit.MC_MODE_AND_CONFIDENCE
 
     def use_mean_and_std(self):
         """Use the mean and std of the distribution for this value"""
